@@ -14,8 +14,12 @@ PROP = dict(
                        "Comdex.C11.limit_withdraw_le_own_deposit", "Comdex.C11.limit_cancel_own_deposit",
                        "Comdex.C11.limit_payout_exact", "Comdex.C11.limit_cancel_exact",
                        "Comdex.C11.bidvalue_eq_sum_deposits", "Comdex.C11.bidvalue_in_custody",
-                       "Comdex.C11.market_total_covered", "Comdex.C11.limit_withdraw_le_own_deposit_counterexample"],
-    harness_tests=["TestC11"],
+                       "Comdex.C11.market_total_covered", "Comdex.C11.limit_withdraw_le_own_deposit_counterexample",
+                       "Comdex.C11.fill_bidvalue_eq_sum_deposits_partial", "Comdex.C11.fill_bidvalue_exact_counterexample",
+                       "Comdex.C11.fill_bidvalue_in_custody", "Comdex.C11.fill_deposits_covered",
+                       "Comdex.C11.fill_touches_only_the_bucket", "Comdex.C11.fill_withdraw_le_own_deposit",
+                       "Comdex.C11.fill_overcharge_counterexample"],
+    harness_tests=["TestC11", "TestC11Fill"],
     trusted_base=[KERNEL_TB, HARNESS_TB, DEC_TB,
                   "Model/English.lean is hand-written from x/auction/keeper/surplus.go:147-349, debt.go:144-349, "
                   "x/auctionsV2/keeper/bid.go:321-403, auctions.go:222-233,337-485 and Model/LimitBid.lean from "
